@@ -72,15 +72,17 @@ mod vk_range {
                 assert!(b < en, "[C01 C03 C05 C06 C16 nonempty] a chunk is returned only if it is non-empty");
                 assert!(c.begin_idx == b, "[C02 C03 begin] begin index is the reserved position");
                 let l = c.values.len();
+                if l > 3 {
+                    // (contents first: a failed assertion ends its path)
+                    assert!(c.values.next() == Some(s + b), "[C01 C02 C16 contents] first element is start + b");
+                    assert!(c.values.len() + 1 == l, "[C03 exact-len] len decreases with consumption");
+                }
                 assert!(l == en - b, "[C01 C03 C16 exact-len] announced length is min(n, len - b)");
                 assert!(l >= 1 && l <= n && (l == n || b + l == len), "[C03 bounded] 1 <= len <= n, short only at the end");
                 if l <= 3 {
                     let mut k = 0;
                     while k < l { let x = c.values.next(); assert!(x == Some(s + b + k), "[C01 C02 C03 C16 contents] k-th element is start + b + k"); k += 1; }
                     assert!(c.values.next().is_none(), "[C03 exact-len] yields exactly the announced number of elements");
-                } else {
-                    assert!(c.values.next() == Some(s + b), "[C01 C02 C16 contents] first element is start + b");
-                    assert!(c.values.len() == l - 1, "[C03 exact-len] len decreases with consumption");
                 }
             }
             None => assert!(b == en, "[C01 C03 C05 C06 C16 none-iff] None only when nothing is left at the reserved position"),
@@ -123,7 +125,7 @@ mod vk_range {
         }
     }
 
-    // @harness name=range_skip inputs=s,e scenario="kind=range s={s} e={e} c=0 ops=next,skip,next,len,seq" props=C06 kind=complete
+    // @harness name=range_skip inputs=s,e scenario="kind=range s={s} e={e} c=0 ops=next,skip,next,len,seq" props=C05,C06,C11 kind=complete
     #[kani::proof]
     #[kani::stub(crate::iter::atomic_counter::AtomicCounter::fetch_and_add, c_faa)]
     #[kani::stub(crate::iter::atomic_counter::AtomicCounter::fetch_and_increment, c_inc)]
@@ -133,8 +135,8 @@ mod vk_range {
         let (it, _s, _e, len) = mk();
         it.skip_to_end();
         kani::cover!(len > 0, "non-empty range");
-        assert!(n_writes() == 1 && first_write().kind == 3, "[C06 skip-ops] skip_to_end is exactly one store");
-        assert!(first_write().arg >= len, "[C06 skip-val] the stored value is at or past the end");
+        assert!(n_writes() == 1 && first_write().kind == 3, "[C05 C06 C11 skip-ops] skip_to_end is exactly one store");
+        assert!(first_write().arg >= len, "[C05 C06 C11 skip-val] the stored value is at or past the end");
     }
 
     // @harness name=range_len inputs=s,e,which,c scenario="kind=range s={s} e={e} c={c} ops=len" props=C11,C05,C06 kind=complete
